@@ -73,7 +73,7 @@ type line struct {
 	Np  *int      `json:"partial,omitempty"`
 }
 
-var resKinds = []string{"ConfigMap", "Ingress", "IngressClass", "Service", "Secret", "Endpoints", "Pod"}
+var resKinds = []string{"ConfigMap", "Ingress", "IngressClass", "Service", "Secret", "Endpoints", "Pod", "Gateway", "GatewayClass", "HTTPRoute", "TCPRoute"}
 
 func split(name string) (string, string) {
 	if i := strings.Index(name, "/"); i >= 0 {
@@ -133,6 +133,26 @@ func objects(e *event, rev int) (old, cur client.Object) {
 		o := kobj.Endpoints(ns, name, []string{"10.0.0.1:p"}, nil, ":8080")
 		n := kobj.Endpoints(ns, name, []string{"10.0.0.1:p", "10.0.0.2:q"}, nil, ":8080")
 		return o, n
+	case "Gateway":
+		o := kobj.Gateway(ns, name, "haproxy", []kobj.Listener{{Name: "l1", Port: 80, Protocol: "HTTP", From: "Same"}})
+		n := kobj.Gateway(ns, name, "haproxy", []kobj.Listener{{Name: "l1", Port: 80, Protocol: "HTTP", From: "All"}})
+		n.Generation = o.Generation + 1
+		return o, n
+	case "GatewayClass":
+		o := kobj.GatewayClass(name, controllerOf(b(e.Old)))
+		n := kobj.GatewayClass(name, controllerOf(b(e.New)))
+		n.Generation = o.Generation + 1
+		return o, n
+	case "HTTPRoute":
+		o := kobj.HTTPRoute(ns, name, 1, []kobj.ParentRef{{Name: "gw"}}, nil, "/", []kobj.BackendRef{{Svc: "s", Port: 8080, Weight: -1}})
+		n := kobj.HTTPRoute(ns, name, 1, []kobj.ParentRef{{Name: "gw"}}, nil, "/x", []kobj.BackendRef{{Svc: "s", Port: 8080, Weight: -1}})
+		n.Generation = o.Generation + 1
+		return o, n
+	case "TCPRoute":
+		o := kobj.TCPRoute(ns, name, 1, []kobj.ParentRef{{Name: "gw"}}, []kobj.BackendRef{{Svc: "s", Port: 8080, Weight: -1}})
+		n := kobj.TCPRoute(ns, name, 1, []kobj.ParentRef{{Name: "gw"}}, []kobj.BackendRef{{Svc: "s", Port: 8081, Weight: -1}})
+		n.Generation = o.Generation + 1
+		return o, n
 	case "Pod":
 		o := kobj.Pod(ns, name, "10.0.0.1", nil, false)
 		n := kobj.Pod(ns, name, "10.0.0.1", nil, b(e.Term))
@@ -149,7 +169,7 @@ func deliver(w *reconciler.VerifWatchers, p *pipeline.Pipeline, e *event, rev in
 	case "update":
 		return w.Update(p.Ctx, old, cur)
 	}
-	if e.Res == "Ingress" || e.Res == "IngressClass" {
+	if e.Res == "Ingress" || e.Res == "IngressClass" || e.Res == "GatewayClass" {
 		return w.Delete(p.Ctx, old)
 	}
 	return w.Delete(p.Ctx, cur)
@@ -249,7 +269,13 @@ func program(rnd *rand.Rand, p, n int) []*event {
 		case k < 8:
 			e.Res, e.Name = "Secret", name
 		case k < 9:
-			e.Res, e.Name = "Endpoints", name
+			if rnd.Intn(2) == 0 {
+				e.Res, e.Name = "Endpoints", name
+			} else if rnd.Intn(4) == 0 {
+				e.Res, e.Name, e.Old, e.New = "GatewayClass", fmt.Sprintf("gc-p%d-%d", p, j), pb(rnd.Intn(2) == 0), pb(rnd.Intn(2) == 0)
+			} else {
+				e.Res, e.Name = []string{"Gateway", "HTTPRoute", "TCPRoute"}[rnd.Intn(3)], name
+			}
 		default:
 			e.Res, e.Name, e.Term = "Pod", name, pb(rnd.Intn(2) == 0)
 		}
@@ -403,7 +429,7 @@ func main() {
 	per := flag.Int("per", 150, "conc: events per goroutine")
 	flag.Parse()
 	world.Chdir()
-	w, err := world.New(*work, nil, pipeline.Options{ConfigMapName: "ingress/cfg", TCPConfigMapName: "ingress/tcp"})
+	w, err := world.New(*work, nil, pipeline.Options{ConfigMapName: "ingress/cfg", TCPConfigMapName: "ingress/tcp", Gateway: true})
 	if err != nil {
 		fmt.Fprintln(os.Stderr, err)
 		os.Exit(2)
